@@ -115,8 +115,8 @@ func init() {
 	mut("C04", "domain Delete drops deleteLock early", delgo,
 		"	db.idx.deleteLock.Lock()\n	defer db.idx.deleteLock.Unlock()\n", "	db.idx.deleteLock.Lock()\n	db.idx.deleteLock.Unlock()\n", "C04.R2.atomic")
 	mut("C04", "domain Delete persists after releasing idx.mu", delgo,
-		"	persist := db.idx.indexPersist.prepare(startDomain)\n	// We choose to keep the mutex locked while persisting to index.\n	return span.Error(persist())",
-		"	persist := db.idx.indexPersist.prepare(startDomain)\n	db.idx.mu.Unlock()\n	err = span.Error(persist())\n	db.idx.mu.Lock()\n	return err", "C04.R2.atomic")
+		"	persist := db.idx.indexPersist.prepare(db.idx.persistHead)\n	// We choose to keep the mutex locked while persisting to index.\n	return span.Error(persist())",
+		"	persist := db.idx.indexPersist.prepare(db.idx.persistHead)\n	db.idx.mu.Unlock()\n	err = span.Error(persist())\n	db.idx.mu.Lock()\n	return err", "C04.R2.atomic")
 	mut("C04", "domain Delete forgets to re-validate the end pointer", delgo,
 		"	if db.idx.mu.pointers[endDomain] != end {\n		endDomain, _ = db.idx.unprotectedSearch(end.TimeRange)\n	}\n", "", "C04.R2.atomic")
 	mut("C04", "GarbageCollect rewrites files before closing idle readers", delgo,
@@ -193,4 +193,20 @@ func init() {
 		"func (d *DynamicDeltaMultiplier[V]) Disconnect(inlets ...Inlet[V]) {\n	d.disconnect(inlets)\n}", "C20.R4.confine")
 	mut("C20", "timer re-armed only once per value", "x/go/confluence/source.go",
 		"		case <-timer.C:\n			timer.Reset(t)\n			timedOutInlet = i", "		case <-timer.C:\n			timedOutInlet = i", "C20.R5.rearm")
+
+	// ---------------- C04.R5
+	mut("C04", "the nothing-to-delete test measures the start offset against the end domain", "cesium/internal/domain/delete.go",
+		"*startOffset == startPtrLen && *endOffset == endPtrLen", "*startOffset == endPtrLen && *endOffset == endPtrLen", "C04.R5.roles")
+	mut("C04", "the end offset is clamped to the start domain's length", "cesium/internal/domain/delete.go",
+		"	if *endOffset > endPtrLen {\n		*endOffset = endPtrLen\n	}", "	if *endOffset > startPtrLen {\n		*endOffset = startPtrLen\n	}", "C04.R5.roles")
+
+	// ---------------- C02.R6 / R7, C04.R3 loop
+	mut("C02", "Close flushes only when the last commit did not", "cesium/internal/domain/writer.go",
+		"	if *w.EnableAutoCommit && w.AutoIndexPersistInterval > 0 {\n		w.idx.mu.RLock()", "	if *w.EnableAutoCommit && w.AutoIndexPersistInterval > 0 && w.lastIndexPersist.IsZero() {\n		w.idx.mu.RLock()", "C02.R6.close")
+	mut("C02", "Close never flushes the index", "cesium/internal/domain/writer.go",
+		"	if *w.EnableAutoCommit && w.AutoIndexPersistInterval > 0 {\n		w.idx.mu.RLock()\n		persistPointers := w.idx.indexPersist.prepare(w.idx.persistHead)\n		w.idx.mu.RUnlock()\n		return persistPointers()\n	}\n	return nil", "	return nil", "C02.R6.close")
+	mut("C02", "the data-file scan fails on a key without a file", "cesium/internal/domain/file_controller.go",
+		"		if !e {\n			continue\n		}\n", "		_ = e\n", "C02.R7.scan")
+	mut("C04", "the offset rewrite stops at the first pointer of another file", "cesium/internal/domain/delete.go",
+		"			if ptr.fileKey == key {\n				if deltaOffset, ok := resolvePointerOffset(ptr.TimeRange, offsetDeltaMap); ok {", "			if ptr.fileKey > key {\n				break\n			}\n			if ptr.fileKey == key {\n				if deltaOffset, ok := resolvePointerOffset(ptr.TimeRange, offsetDeltaMap); ok {", "C04.R3.gc")
 }
